@@ -45,6 +45,7 @@ type Program struct {
 	globalStores map[*ssa.Global][]*ssa.Function
 	allFuncs []*ssa.Function
 	ghostTypes map[string]types.Type
+	externFns map[string]*ssa.Function
 }
 
 func LoadProgram(repo string, overlay map[string][]byte) (*Program, error) {
@@ -190,6 +191,19 @@ func externKey(fn *ssa.Function) string {
 		return fn.Object().Pkg().Path() + "." + fn.Name()
 	}
 	return fn.String()
+}
+
+// findExtern: a function of a dependency by its extern key ("reflect.Value.Int", "(*bufio.Reader).ReadRune", "math.Floor")
+func (P *Program) findExtern(key string) *ssa.Function {
+	if P.externFns == nil {
+		P.externFns = map[string]*ssa.Function{}
+		for fn := range ssautil.AllFunctions(P.Prog) {
+			if fn.Pkg != nil || fn.Signature.Recv() != nil {
+				P.externFns[externKey(fn)] = fn
+			}
+		}
+	}
+	return P.externFns[key]
 }
 
 func (P *Program) LoadContracts() error {
